@@ -19,6 +19,9 @@ CONSTANTS
   Pads = FALSE
   Sample = FALSE
   Emit = FALSE
+  RdLimit = 1048576
+  BigDeltas <- NoDeltas
+  MaxBig = 0
   InitSample = 0
 INIT Init
 NEXT Next
